@@ -533,6 +533,51 @@ class Item:
             i += 1
         self.log.append({"kind": "drop-attrs", "count": n, "why": why or "attributes of derive helper crates"})
 
+    def closure_annotate(self, anchor_src, nth, params_src, spec_src, why=""):
+        """`CALL(|p| BODY)` -> `CALL(|PARAMS| -> SPEC { BODY })`: the anchor is the call prefix up to and
+        including the opening `(` and the closure's `|...|` parameter list; the body is NOT part of the anchor
+        and is kept verbatim (so a changed body reaches the verifier instead of losing the anchor)."""
+        pat = texts(tokenize(anchor_src))
+        hits = [h for h in find_seq(self.toks, pat) if all(self.toks[h + k].line != 0 for k in range(len(pat)))]
+        if len(hits) < nth or nth < 1:
+            raise LostAnchor("closure-annotate: anchor `%s` occurs %d times in %s, wanted #%d"
+                             % (" ".join(pat), len(hits), self.path, nth))
+        h = hits[nth - 1]
+        T = self.toks
+        # the `(` that opens the call is the last `(` of the anchor at depth 0 of the anchor text
+        open_idx = None
+        for k in range(len(pat) - 1, -1, -1):
+            if pat[k] == "(":
+                open_idx = h + k
+                break
+        if open_idx is None or pat[-1] != "|":
+            raise LostAnchor("closure-annotate: anchor must look like `.method ( | params |`")
+        close = match_close(T, open_idx)
+        # parameter list: from the first `|` after open_idx to the anchor's last token
+        bar1 = open_idx + 1
+        if T[bar1].s == "move":
+            bar1 += 1
+        bar2 = h + len(pat) - 1
+        body = T[bar2 + 1:close]
+        if not body:
+            raise LostAnchor("closure-annotate: empty closure body")
+        line = T[h].line
+        def sc(txt):
+            ts = tokenize(txt)
+            for t in ts:
+                t.line = line
+            return ts
+        is_block = body[0].s == "{" and match_close(T, bar2 + 1) == close - 1
+        newparams = sc(params_src)
+        spec = sc(" -> " + spec_src + " ")
+        if is_block:
+            newbody = body
+        else:
+            newbody = sc("{") + body + sc(" }")
+        T[bar1 + 1:close] = newparams + sc("|") + spec + newbody
+        self.log.append({"kind": "closure-contract", "what": "closure-annotate", "anchor": " ".join(pat), "nth": nth,
+                         "params": params_src, "spec": spec_src, "why": why or "type annotation + ghost ensures; body verbatim"})
+
     def insert_at_signature(self, text):
         o = self.body_open()
         ins = tokenize("\n" + text + "\n")
